@@ -277,6 +277,7 @@ fn c15_compatible_evidence_joins_to_the_truth() {
         if !deficient(&g, &js).is_empty() { println!("NOTE c15: generator left a class without its full evidence (driver bug), round {round}"); continue; }
         cases += 1;
         let n = g.len();
+        if round < 8 && std::env::var("VX_C15_SHOW").is_ok() { println!("SAMPLE {} truth: {}", show_js(n, &js), truth_line(&g)); }
         let fails = |cand: &[J]| -> Option<(String, String)> {
             match run(n, cand, false, BUDGET) {
                 Outcome::Done(r) => first_mismatch(&g, &r).map(|(v, e)| (e, format!("v{v} : {}", show_g(&g[v])))),
